@@ -530,7 +530,7 @@ func (l *wfLog) kept(dir string, damaged int) (bool, string) {
 
 func (l *wfLog) runFault(dir string, j int, ft wfFault) (res map[string]interface{}) {
 	res = map[string]interface{}{"e": "fault", "log": l.spec.Name, "j": j, "fault": ft, "dmg": ft.Dmg, "open1": false, "d1": []int{}, "st1": map[string]string{},
-		"acked": false, "open2": false, "d2": []int{}, "st2": map[string]string{}, "kept": true, "notes": []string{}}
+		"acked": false, "open2": false, "d2": []int{}, "st2": map[string]string{}, "kept": true, "g": []int{}, "gok": false, "notes": []string{}}
 	notes := []string{}
 	defer func() {
 		if p := recover(); p != nil {
@@ -594,6 +594,24 @@ func (l *wfLog) runFault(dir string, j int, ft wfFault) (res map[string]interfac
 		}
 	}
 	res["acked"] = acked
+	// reading the log from its first sequence number through the live WAL (what a primary serves to a joining replica)
+	// must yield what a replay of the directory yields (compared with d2 by the specification)
+	if w := eng.GetWAL(); w != nil {
+		ges, gerr := w.GetEntriesFrom(1)
+		g, last := []int{}, 0
+		for _, e := range ges {
+			id := l.idOf(e, true, last)
+			g = append(g, id)
+			if id != 0 {
+				last = id
+			}
+		}
+		res["g"] = g
+		res["gok"] = gerr == nil
+		if gerr != nil {
+			notes = append(notes, "GetEntriesFrom(1): "+gerr.Error())
+		}
+	}
 	if err := eng.Close(); err != nil {
 		notes = append(notes, "close: "+err.Error())
 	}
